@@ -45,6 +45,9 @@ def run(ctx, rep):
     rep.floor("B2", "fields examined for layout dependence", nchk, 150)
     # ---- CT constructors
     ctor_rules(ctx, rep, "C02", ranges=False)
+    rep.rule("J1", "shared with C18: the doc field is filled by a byte-indexed backward scan; every str index in it is provably a byte offset (a layout with non-ASCII text in a comment must not cut the slice wrongly or panic)")
+    import c18
+    c18.dimension_rule(ctx, rep, "C02")
     rep.assumptions += ["TB-2 the generated parser calls the actions as the grammar says and the runtime lexer is longest-match with the match-block priority", "TB-1 rustc MIR", "TB-4 tabulator",
                         "lalrpop's canned actions for `*`, `+`, `?`, `( )` keep order (TB-2)"]
     rep.not_decided.append("that the generated LR tables implement the grammar (TB-2; gramfacts cross-checks tables against the front-end, outside the registered checks)")
